@@ -151,6 +151,8 @@ def sites_for(draw, arities, kwpool, host, allow_next=True, max_sites=2, own=Non
         if fn == "next" and any(o["fn"] == "recurse" for o in out):
             fn = "call_next"
         site = {"fn": fn, "npos": npos, "kws": sorted(kws) if fn != "next" else []}
+        if len(site["kws"]) >= 2 and draw(st.booleans()):
+            site["kwrev"] = True  # the same keywords, written in the opposite order
         if fn != "next" and draw(st.integers(0, 5)) == 0:
             site["star"] = True  # recurse(*args, **kwargs): the run-time lookup path of the rewriter
         out.append(site)
